@@ -126,7 +126,12 @@ def buf_setup(rng, g, n_res=None, objs_per_res=None):
         if rng.random() < 0.7:
             ops.append(("ext", res, g.vg.container(is_dict, 2)))
         for _ in range(objs_per_res or rng.choice([1, 1, 2])):
-            ops.append(("open", is_dict, res, MISSING))
+            # now and then the constructor is given data (validated, held in memory, not saved)
+            # (only where the caller asks for it - the model correspondence: with two objects on a
+            # missing file, unsaved constructor data reaches the other object through the buffer,
+            # a use the properties do not cover)
+            data = g.vg.container(is_dict, 2) if getattr(g, "ctor_data", False) and rng.random() < 0.2 else MISSING
+            ops.append(("open", is_dict, res, data))
             g.obj_res.append(res)
         g.resources.append((res, is_dict))
     return is_dict, ops
